@@ -50,6 +50,18 @@ func witnesses(ops hx.Counter, withPoll bool) []Case {
 	tag("ubi_endblock_honest", runUbi(UbiParams{Seed: 9072, Period: 31556952, Amount: 1}, ops))
 	// amount 2^63: amount*31556952 wraps to 0 in the hard-cap check (C13), int64(amount) is negative in the UBI end-blocker
 	tag("ubi_endblock_amount_wraps", runUbi(UbiParams{Seed: 9073, Period: 86400, Amount: 1 << 63}, ops))
+	// every vote pattern on every proposal type, run past the enactment end (GetAverageVotesSlash & co.)
+	for t := range propTypes {
+		vp := VotePatternParams{Seed: 9080 + uint64(t), Slash: []string{"0", "0.01", "1"}[t%3], TailDts: []int64{5, 301, 5}}
+		for i := range votePatterns {
+			vp.Patterns = append(vp.Patterns, i)
+			vp.Types = append(vp.Types, (t+i)%len(propTypes))
+		}
+		if t < 3 {
+			tag("gov_vote_patterns", runVotePatterns(vp, ops))
+		}
+	}
+	tag("gov_poll_patterns", runPollPatterns(PollPatternParams{Seed: 9090}, ops))
 	// the sanctioned halt
 	tag("upgrade_halt_sanctioned", runUpgrade(UpgradeParams{Seed: 9061, Instate: false, Skip: false}, ops))
 	tag("upgrade_instate_skip_no_halt", runUpgrade(UpgradeParams{Seed: 9062, Instate: true, Skip: true}, ops))
